@@ -108,7 +108,14 @@ def run(chk, tier):
     ent = inner["entry"][inn["iter"]]
     srcs = set()
     for leaf in sym._leaves(ent, []):
-        srcs.add(leaf[1].endswith("into_iter") and leaf[2][0][0] == "vfld" and leaf[2][0][1][0] == "call" and leaf[2][0][1][1] == REC + "messages" if leaf[0] == "call" else False)
+        if leaf[0] == "call" and leaf[1].endswith("into_iter") and len(leaf[2]) == 1:
+            # the iterated vector: Ok-payload of Record::messages(..) on every way of getting here
+            for x in sym._leaves(leaf[2][0], []):
+                if x == ("unreachable",):
+                    continue        # error arms never reach the loop
+                srcs.add(x[0] == "vfld" and x[2] == "Ok" and x[1][0] == "call" and x[1][1] == REC + "messages")
+        else:
+            srcs.add(False)
     chk.ob("R-LIN", SCAN + "#messages", srcs == {True}, "iterates the messages decoded from this record, in order", w, key="source")
     msg = somev(call_next(Lm))
     contents = fld(msg, "contents")
@@ -136,7 +143,9 @@ def run(chk, tier):
                     had = any(len(c) == 3 and c[0] == ("discr", Lc) and c[2] == ((1, 1),) for c in c2)
                     has_vb = any(len(c) == 3 and c[0] == ("discr", vb) and c[2] == ((1, 1),) for c in c2)
                     want_c = Lc if (had or not has_vb) else some(fld(somev(vb), "volume_coverage_pattern_number"))
-                    expect(chk, "R-WIRE", SCAN + "#messages", cv, want_c, w, "VCP number is taken from the first volume block only", key="drd#%d:vcp" % n_drd)
+                    # on this path the VCP is known to be present / absent: Some(payload) and None are then the variable itself
+                    eta = {Lc: some(somev(Lc))} if had else ({Lc: NONE} if any(len(c) == 3 and c[0] == ("discr", Lc) for c in c2) else {})
+                    expect(chk, "R-WIRE", SCAN + "#messages", sym.rebuild(cv, eta), sym.rebuild(want_c, eta), w, "VCP number is taken from the first volume block only", key="drd#%d:vcp" % n_drd)
                 else:
                     n_other += 1
                     chk.ob("R-LIN", SCAN + "#messages", r2 == [("atom", Lr)] and v[inn["coverage_pattern_number"]] == Lc,
